@@ -44,6 +44,10 @@ impl Tier {
 static OUT_FD: OnceLock<i32> = OnceLock::new();
 
 pub fn init_stdio() {
+    // debugging aid: VERIF_KEEP_STDOUT=1 keeps the library's own stdout output visible
+    if std::env::var("VERIF_KEEP_STDOUT").is_ok() {
+        return;
+    }
     unsafe {
         let saved = libc::dup(1);
         let devnull = libc::open(c"/dev/null".as_ptr(), libc::O_WRONLY);
